@@ -45,12 +45,20 @@ def rx_orig(m):
     return d
 
 
+def num(x, bad=-99999):
+    """A field the code left unset (None) or of another type is logged as a number no
+    range contains, so that the record is judged (and rejected) instead of breaking TLC's JSON reader."""
+    return int(x) if isinstance(x, int) and -2 ** 31 < x < 2 ** 31 else bad
+
+
 def tx_decoded(m):
-    return dict(ver=m.ver, tn=m.tn, fnb=fnb(m.fn), pwr=m.pwr, burst=burst_to_json(m.burst))
+    return dict(ver=num(m.ver), tn=num(m.tn), fnb=fnb(m.fn) if isinstance(m.fn, int) else [-1], pwr=num(m.pwr),
+                burst=burst_to_json(m.burst))
 
 
 def rx_decoded(m):
-    d = dict(ver=m.ver, tn=m.tn, fnb=fnb(m.fn), rssi=m.rssi, toa=m.toa256, burst=burst_to_json(m.burst))
+    d = dict(ver=num(m.ver), tn=num(m.tn), fnb=fnb(m.fn) if isinstance(m.fn, int) else [-1], rssi=num(m.rssi),
+             toa=num(m.toa256), burst=burst_to_json(m.burst))
     if m.ver == 0:
         # parse_msg leaves the class default in place when there is no burst
         d["mod"] = MODNAME.get(m.mod_type, "unknown") if m.burst is not None else "unset"
@@ -59,8 +67,8 @@ def rx_decoded(m):
         if m.nope_ind:
             d.update(mod="none", tscset=-1, tsc=-1)
         else:
-            d.update(mod=MODNAME.get(m.mod_type, "unknown"), tscset=m.tsc_set, tsc=m.tsc)
-        d["ci"] = m.ci
+            d.update(mod=MODNAME.get(m.mod_type, "unknown"), tscset=num(m.tsc_set), tsc=num(m.tsc))
+        d["ci"] = num(m.ci)
     return d
 
 
